@@ -276,9 +276,21 @@ public:
 	template<class T>
 	Socket& operator<<(const T& x)
 	{
+		return put_(x, &x);
+	}
+
+	template<class T>
+	Socket& put_(const T& x, const void*) // a plain value: its bytes
+	{
 		T y = (endian() == ASL_OTHER_ENDIAN) ? bytesSwapped(x) : x;
 		write(&y, sizeof(x));
 		return *this;
+	}
+
+	template<class T, class K>
+	Socket& put_(const T&, const Array<K>* a) // an object derived from Array (Stack, Queue, StreamBuffer): its items, not the handle
+	{
+		return *this << *a;
 	}
 
 	/**
@@ -287,10 +299,22 @@ public:
 	template<class T>
 	Socket& operator>>(T& x)
 	{
+		return get_(x, &x);
+	}
+
+	template<class T>
+	Socket& get_(T& x, void*)
+	{
 		read(&x, sizeof(x));
 		if (endian() == ASL_OTHER_ENDIAN)
 			swapBytes(x);
 		return *this;
+	}
+
+	template<class T, class K>
+	Socket& get_(T&, Array<K>* a)
+	{
+		return *this >> *a;
 	}
 
 	Socket& operator>>(char& x)
